@@ -110,6 +110,9 @@ Definition ty_seq (st : style) (k : kind) : list Z :=
   | SNew, KOther => zs "cogent3.core.new_sequence.Sequence"
   end.
 
+(** the registry key of [deserialise_seq]: the module path of the old-style sequence classes *)
+Definition key_seq_module : list Z := zs "cogent3.core.sequence".
+
 Definition ty_aligned := zs "cogent3.core.alignment.Aligned".
 Definition ty_alignment := zs "cogent3.core.alignment.Alignment".
 Definition ty_indelmap := zs "cogent3.core.location.IndelMap".
